@@ -5,35 +5,38 @@ From Bfe Require Import lib.Val lib.Bytes model.Fcgi proofs.FcgiProofs run.RunC5
 Import ListNotations.
 Open Scope Z_scope.
 
-(* C55_pairs_roundtrip / C55_body_roundtrip: for EVERY parameter list (names and values of any length below 2^31,
+(* bc is the way the body reaches the client: bc > 0 an io.Reader (the req.Body / bufio ReadFrom path), bc <= 0 an
+   io.WriterTo (bytes.Reader / bytes.Buffer as in Post, PostForm, PostFile) that writes -bc bytes per Write, 0 = the
+   whole body in ONE Write (the direct-write path of bufio.Writer, where streamWriter.Write itself splits the records).
+   C55_pairs_roundtrip / C55_body_roundtrip: for EVERY delivery mode, EVERY parameter list (names and values of any length below 2^31,
    including values that do not fit one record and names longer than a record) and EVERY body, the bytes
    FCGIClient.Do writes are a well-formed FastCGI record sequence (request id 1 throughout) which the
    specification's decoders read as: BEGIN_REQUEST(responder, flags 0); a PARAMS stream, closed by an empty
    record, whose name-value pairs are exactly the parameters; a STDIN stream, closed by an empty record, whose
    content is exactly the body; and nothing else.  (Before the repair this was false: values were cut so that
    8+|name|+|value| <= 65500, and names longer than 65492 bytes crashed the client.) *)
-Theorem C55_request_roundtrip : forall ps body,
+Theorem C55_request_roundtrip : forall bc ps body,
   Forall (fun kv => blen (fst kv) < 2^31 /\ blen (snd kv) < 2^31) ps ->
-  spec_request (do_written ps body) = Some (ps, body).
+  spec_request (do_written bc ps body) = Some (ps, body).
 Proof. exact request_roundtrip. Qed.
 Print Assumptions C55_request_roundtrip.
 
 (* The two halves under the names used in DESIGN.md. *)
-Theorem C55_pairs_roundtrip : forall ps body,
+Theorem C55_pairs_roundtrip : forall bc ps body,
   Forall (fun kv => blen (fst kv) < 2^31 /\ blen (snd kv) < 2^31) ps ->
-  option_map fst (spec_request (do_written ps body)) = Some ps.
+  option_map fst (spec_request (do_written bc ps body)) = Some ps.
 Proof. exact pairs_roundtrip. Qed.
 Print Assumptions C55_pairs_roundtrip.
-Theorem C55_body_roundtrip : forall ps body,
+Theorem C55_body_roundtrip : forall bc ps body,
   Forall (fun kv => blen (fst kv) < 2^31 /\ blen (snd kv) < 2^31) ps ->
-  option_map snd (spec_request (do_written ps body)) = Some body.
+  option_map snd (spec_request (do_written bc ps body)) = Some body.
 Proof. exact body_roundtrip. Qed.
 Print Assumptions C55_body_roundtrip.
 
 (* C55_payload_le_65535: every record of the PARAMS and STDIN streams carries at most 65500 <= 65535 bytes,
    so the 16-bit contentLength field never wraps. *)
-Theorem C55_payload_le_65535 : forall ps body,
-  Forall (fun content => blen content <= 65500) (params_records ps ++ stdin_records body).
+Theorem C55_payload_le_65535 : forall bc ps body,
+  Forall (fun content => blen content <= 65500) (params_records ps ++ stdin_records_m bc body).
 Proof. exact records_bounded. Qed.
 Print Assumptions C55_payload_le_65535.
 
